@@ -140,6 +140,26 @@ pub fn widen(pid: &str, op: &str, out: &mut Vec<String>) {
     hist.push(h4.clone());
     hist.push(vec![h4[0].clone(), h4[h4.len() - 1].clone()]);
     hist.push(vec![h4[h4.len() - 1].clone(), h4[0].clone()]);
+    // the second operand FIRST (bare, and as the optional member of an array of objects), then the documents of the
+    // first with arrays before objects before scalars, and the other way round: what an accumulated tuple or array
+    // turns into depends on which kind meets it first
+    let rank = |d: &J| match d {
+        J::Arr(_) => 0,
+        J::Obj(_) => 1,
+        _ => 2,
+    };
+    let mut sorted_a = ha.clone();
+    sorted_a.sort_by_key(rank);
+    let mut rev_a = sorted_a.clone();
+    rev_a.reverse();
+    for order in [&sorted_a, &rev_a] {
+        let mut h5 = vec![hb[0].clone()];
+        h5.extend(order.iter().cloned());
+        hist.push(h5);
+        let mut h6 = vec![J::Arr(vec![J::Obj(vec![("k".into(), hb[0].clone())]), J::Obj(vec![])])];
+        h6.extend(order.iter().map(|d| J::Arr(vec![J::Obj(vec![("k".into(), d.clone())])])));
+        hist.push(h6);
+    }
     for h in hist {
         let hx = hexes(&h);
         match pid {
